@@ -22,6 +22,9 @@ ASSUMPTIONS = ["Trade/LimitOrderBook/contract attributes are plain values (no de
 
 
 def run(ck, an, tier):
+    from rules import C14
+    from sa.report import Renamed
+    C14.s5(Renamed(ck, "C14:"), an)      # exchange[contract] is that contract's own book (keys by symbol / static hashing)
     ledger.trade_formulas(ck, an)
     ledger.fees_formulas(ck, an)
     ledger.transact_equations(ck, an, {"order", "equations", "reference"})
